@@ -2,11 +2,10 @@
 # Runs each seeded change in /verif/seeded against its property's check (quick) and records which signatures fired.
 cd /verif
 for d in seeded/C*/; do
-  id=$(basename $d)
-  extra=""
-  out=$(/verif/seedrun.sh /verif/$d/patch.diff $id $extra 2>&1)
+  name=$(basename $d); id=${name%%-*}
+  out=$(/verif/seedrun.sh /verif/$d/patch.diff $id 2>&1)
   sigs=$(echo "$out" | grep -- '--- ' | sed 's/.*sig=//' | tr '\n' ';')
-  echo "$id: $(echo "$out" | grep '^==' | tr '\n' ' ') $sigs"
+  echo "$name: $(echo "$out" | grep '^==' | tr '\n' ' ') $sigs"
   python3 - "$d" "$sigs" <<'PY'
 import json,sys
 d,sigs=sys.argv[1],sys.argv[2]
